@@ -166,7 +166,25 @@ func genC06(r *Rng) *Plan {
 	if two {
 		cfg.Routes = append(cfg.Routes, routeFor(2, map[string]any{"allowed_email_domains": []string{"other.org"}}))
 	}
+	perUpstream := r.Chance(1, 4)
+	if perUpstream {
+		// several upstreams whose rules admit different people (lists of different lengths, so that each upstream's
+		// rule set is its own): a callback is judged under the rules of the upstream it arrives at, whichever came last
+		cfg.Routes = []Route{routeFor(1, map[string]any{"allowed_email_addresses": []string{"alice@example.com"}}),
+			routeFor(2, map[string]any{"allowed_email_addresses": []string{"bob@example.com"}})}
+		if r.Chance(1, 2) {
+			cfg.Routes = append(cfg.Routes, routeFor(3, map[string]any{"allowed_email_domains": []string{"other.org"}}))
+		}
+		if r.Chance(1, 3) {
+			cfg.Routes[0].Options["allowed_email_domains"] = []string{"nobody.example"}
+		}
+		cfg.DefaultDomains = nil
+		two = true
+	}
 	p := &Plan{Cfg: cfg, Users: stdUsers, Gen: "callback"}
+	if perUpstream {
+		p.Gen = "callback+rules-per-upstream"
+	}
 	hostA := cfg.Routes[0].From
 	hostB := hostA
 	if two && r.Chance(1, 2) {
@@ -847,3 +865,29 @@ func genC02(r *Rng) *Plan {
 }
 
 func pathEscape(s string) string { return url.PathEscape(s) }
+
+// twinUpstreams: two upstreams of one provider with different group rules; one user holds a session on each (the
+// authenticator hands both the same tokens) and is then removed from one upstream's groups; both sessions come up for
+// their due check in overlapping requests, one per upstream: each is served only after the authenticator confirmed
+// membership in *its* upstream's groups, whatever else is in flight for the same token.
+func twinUpstreams(r *Rng, gen string) *Plan {
+	cfg := swarmConfig(r)
+	cfg.CookieDomain = ""
+	cfg.Routes = []Route{routeFor(1, map[string]any{"allowed_groups": []string{"eng"}}), routeFor(2, map[string]any{"allowed_groups": []string{"all", "ops"}})}
+	cfg.DefaultDomains = nil
+	p := &Plan{Cfg: cfg, Users: stdUsers, Gen: gen + "+twin-upstreams"}
+	h1, h2 := cfg.Routes[0].From, cfg.Routes[1].From
+	p.Steps = append(p.Steps, Step{Op: "login", B: "t1", User: "alice@example.com", Host: h1, Target: "/"})
+	p.Steps = append(p.Steps, Step{Op: "login", B: "t1", User: "alice@example.com", Host: h2, Target: "/"})
+	p.Steps = append(p.Steps, Step{Op: "idp", Sub: "setgroups", User: "alice@example.com", Groups: []string{"eng"}})
+	fh, sh := h1, h2
+	if r.Chance(1, 3) {
+		fh, sh = h2, h1
+	}
+	p.Steps = append(p.Steps, Step{Op: "get", B: "t1", Host: fh, Target: r.Pick("/", "/x?y=1", "/oauth2/auth"), Dt: r.PickDur(cfg.ValidTTL+3*time.Second, cfg.TokenTTL+3*time.Second),
+		Twin: &Step{Op: "get", B: "t1", Host: sh, Target: r.Pick("/", "/private/y")}})
+	for i, n := 0, r.Range(1, 4); i < n; i++ {
+		p.Steps = append(p.Steps, Step{Op: "get", B: "t1", Host: r.Pick(h1, h2), Target: "/", Dt: r.PickDur(time.Second, cfg.ValidTTL+time.Second)})
+	}
+	return p
+}
